@@ -6,9 +6,11 @@
 #![allow(clippy::too_many_arguments)]
 
 // The real keyring implementation of the CLI, compiled from the working tree.
+#[cfg(feature = "kr")]
 #[allow(dead_code)]
 #[path = "/repo/src/cli/src/errors.rs"]
 mod errors;
+#[cfg(feature = "kr")]
 #[allow(dead_code)]
 #[path = "/repo/src/cli/src/keyring.rs"]
 mod keyring;
@@ -27,9 +29,13 @@ mod c11;
 mod c12;
 mod c13;
 mod c14;
+#[cfg(feature = "kr")]
 mod c15;
+mod c15cli;
 mod c16;
+#[cfg(feature = "kr")]
 mod c17;
+mod c17cli;
 mod c18;
 mod c19;
 mod c20;
@@ -102,6 +108,7 @@ fn main() {
         c09::child_main(&args);
         return;
     }
+    #[cfg(feature = "kr")]
     if args[1] == "golden-gen" {
         c06::golden_gen();
         return;
@@ -207,9 +214,15 @@ fn run_property(prop: &str, ctx: &Ctx) {
         "C12" => c12::run(ctx),
         "C13" => c13::run(ctx),
         "C14" => c14::run(ctx),
+        #[cfg(feature = "kr")]
         "C15" => c15::run(ctx),
+        #[cfg(not(feature = "kr"))]
+        "C15" => c15cli::run_cli_only(ctx),
         "C16" => c16::run(ctx),
+        #[cfg(feature = "kr")]
         "C17" => c17::run(ctx),
+        #[cfg(not(feature = "kr"))]
+        "C17" => c17cli::run_cli_only(ctx),
         "C18" => c18::run(ctx),
         "C19" => c19::run(ctx),
         "C20" => c20::run(ctx),
